@@ -4,7 +4,7 @@ import TrackVerif.GPMF.Driver
 /-
   Line-protocol side of the MP4 decoder (C08, C09 decoder half).
 
-    M4 dec wf|mut ts=<n> track=0|1 stsc=f:s,… stts=c:d,… sz=<list|~> uni=<n> sn=<n> co=<list|none> file=<hex>
+    M4 dec wf|mut ts=<n> track=0|1 stsc=f:s,… stts=c:d,… sz=<list|~> uni=<n> sn=<n> co=<list|none> [gap=P:G] file=<hex>
         => ok <keyhex>:<off,off,…> … | err | panic | hang | synth-mismatch
 -/
 namespace TrackVerif.GPMF.Mp4Driver
@@ -35,6 +35,15 @@ def parse (toks : List String) : Option (Mp4Tables × Bytes) := do
   let sn ← (field toks "sn").bind nat?
   let co ← field toks "co"
   let offsets ← if co == "none" then some none else (natList co).map some
+  -- `gap=P:G`: the decoder read the file with a hole of G zero bytes (video nobody points into) at
+  -- position P; `file` holds the bytes around it, so positions behind the hole move down by G
+  let offsets ← match field toks "gap" with
+    | none => some offsets
+    | some g => match g.splitOn ":" with
+      | [p, n] => match nat? p, nat? n with
+        | some p, some n => some (offsets.map fun os => os.map fun o => if o ≥ p + n then o - n else o)
+        | _, _ => none
+      | _ => none
   let file ← (field toks "file").bind bytesOfHex
   pure (⟨ts, stsc, stts.map (·.1), stts.map (·.2), sz, uni, sn, offsets, track == "1"⟩, file)
 
